@@ -50,7 +50,7 @@ def run(c):
                    "on each of the 5 compressing collectors (chunk size 1/2) with SetMetadata inserted at every position, two SetMetadata "
                    "(different document / same document) at every pair of positions (histories <= 2 / <= 3), a final Resolve; sampled longer "
                    "ones; random long histories over all operations incl. unreadable Adds, type-changing Adds, Info, wrappers and writer "
-                   "faults; each history is followed by its twin without the SetMetadata operations. READ: the stream of every history, "
+                   "faults; each history is followed by its twin without the SetMetadata operations. READ: the stream produced by every second exhaustive history and every other history, "
                    "every composition of <= 3 (5 thorough) pieces from {chunk, two chunks, metadata+chunk, stray type-0 document in every numeric "
                    "representation, another type-0 document, unknown-type document, unreadable chunk, chunk typed int64/double 1}, random "
                    "compositions of up to 4 collector outputs (different / no metadata, set early or late) with stray documents inserted. "
